@@ -1188,7 +1188,8 @@ def gen_legacy_json(rng):
         d['language'] = rng.choice([l for l in LANGS])
         e['langtags'] = [d['language']]
     elif c < 0.7:
-        d['language'] = rng.choice(['Klingon', 'xx', 'e n'])     # not a known tag: silently skipped
+        d['language'] = rng.choice(['Klingon', 'xx', 'e n'])     # not a known tag: the decoder swallows the error
+        e['langtags'] = ['']                                     # and leaves the empty Language entry it had added
     if rng.random() < 0.5:
         d['nsfw'] = rng.random() < 0.5
     e['tags'] = ['mature'] if d.get('nsfw') else []
@@ -1324,6 +1325,18 @@ def strings_valid(tree, m):
     return True
 
 
+def known_only(tree, m):
+    """drop what the real parser files under unknown fields (undeclared number, or wire type not the declared one):
+    it keeps and re-emits them, but they are not fields of the message"""
+    decl = {e[0]: e[1] for e in SCHEMA.table[m][1]}
+    out = []
+    for k, t, v in tree:
+        if decl.get(k) != t:
+            continue
+        out.append([k, t, known_only(v, SCHEMA.msg_of(m, k))] if t == 'm' else [k, t, v])
+    return out
+
+
 def check_signable_bytes(run, model, data, kind):
     """Support.from_bytes is Signable.from_bytes unchanged: outcome class on arbitrary bytes"""
     case = {'op': 'support-bytes', 'data': data.hex(), 'kind': kind}
@@ -1336,7 +1349,7 @@ def check_signable_bytes(run, model, data, kind):
         parsed = True
     except IndexError:
         impl, parsed = 'empty', None
-    except DecodeError as ex:
+    except (DecodeError, UnicodeDecodeError) as ex:
         parsed = False
         impl = 'version' if 'format version' in str(ex) else 'payload'
     run.count('support-bytes:' + (impl if isinstance(impl, str) else impl['kind']))
@@ -1393,7 +1406,7 @@ def check_wire(run, model, payload, m, cls, kind):
     try:
         msg.ParseFromString(payload)
         impl_ok = True
-    except DecodeError:
+    except (DecodeError, UnicodeDecodeError):       # invalid UTF-8 in a string field surfaces as UnicodeDecodeError
         impl_ok = False
     mod = model.call('parse_tree', d=payload.hex(), schema=SCHEMA.table, depth=DEPTH, m=m)
     if mod == 'group':
@@ -1405,11 +1418,11 @@ def check_wire(run, model, payload, m, cls, kind):
         return
     if impl_ok and msg.SerializeToString() == payload:
         run.count('wire:canonical')
-        run.compare('C16.wire_tree', case, {'ok': msg_tree(msg)}, mod)
+        run.compare('C16.wire_tree', case, msg_tree(msg), known_only(mod['ok'], m))
         run.compare('C16.wire_ser', case, payload.hex(), model.call('ser_tree', tree=mod['ok']))
-    flat = model.call('wire_parse', d=payload.hex())
-    if isinstance(flat, dict):
-        run.compare('C16.wire_flat_ser', case, None, None if model.call('ser_fields', fields=flat['ok']) is not None else 1)
+        flat = model.call('wire_parse', d=payload.hex())
+        run.compare('C16.wire_flat_ser', case, payload.hex(),
+                    model.call('ser_fields', fields=flat['ok']) if isinstance(flat, dict) else flat)
 
 
 def damage(rng, b):
@@ -1464,3 +1477,152 @@ def check_varint(run, model, n, kind):
     if z32:
         run.compare('C16.zigzag', case, msg_tree(loc)[0][2], model.call('zigzag_enc', z=z32))
         run.compare('C16.zigzag_dec', case, z32, model.call('zigzag_dec', n=model.call('zigzag_enc', z=z32)))
+
+
+# ------------------------------------------------------------------------------------------------
+def small_scope_urls(maxlen):
+    """every string up to maxlen over an alphabet that holds one member of each class of the grammar"""
+    alphabet = ['a', '1', '0', 'g', '@', ':', '#', '$', '/', '\n']
+    out = ['']
+    layer = ['']
+    for _ in range(maxlen):
+        layer = [p + c for p in layer for c in alphabet]
+        out += layer
+    return out
+
+
+def run_claim_spec(run, model, spec, kind):
+    try:
+        check_claim(run, model, spec, kind)
+    except Exception as ex:                  # noqa: the API refusing a well-formed assignment is a finding
+        import traceback
+        run.violation({'op': 'claim', 'spec': spec, 'kind': kind},
+                      f'{type(ex).__name__}: {ex} while assembling / encoding / decoding the claim: '
+                      + traceback.format_exc()[-600:], signature={'op': 'claim', 'spec': spec})
+
+
+def main(run):
+    model = vlib.Model('C16')
+    rng = run.rng
+    q = lambda a, b: vlib.scaled(run.tier, a, b)        # noqa
+    run.rule = ('claims: random field assignments per claim type (stream/channel/repost/collection) applied through '
+                'update() or through the accessors: unicode text incl. astral, NUL and length edges 127/128/16383/16384 bytes, '
+                'uint64/uint32/int64 edges, fees in LBC/BTC/USD incl. the uint64 edge and finer-than-unit amounts, 0..N tags / '
+                'languages (language[-script][-region], alpha-2 and UN M.49 regions) / locations (dict, JSON and colon forms, '
+                '+-90/+-180) / claim references, with and without a signature envelope (hash set directly or by id); supports and '
+                'purchases; legacy JSON and v1 protobuf claims built from random values plus the upstream fixtures; damaged bytes '
+                '(bit flips, truncation, insertions, every first byte) against envelope, dispatch and the wire parser; varint / '
+                'int64 / zigzag values at every 7-bit boundary; URLs drawn from the grammar (names over ASCII, punctuation, BMP and '
+                'astral code points, hex-looking names; claim ids of length 1..40, amount orders; both separators; with and without '
+                'scheme), one-edit corruptions with every forbidden code point, modifier damage, trailing garbage, and all strings '
+                'up to a small length over a 10-letter alphabet. distinct = distinct (op, input); non-trivial = non-empty input.')
+    # -- corpus first ------------------------------------------------------------------------------
+    for e in load_corpus('claims.json'):
+        run_claim_spec(run, model, e['spec'], 'corpus')
+    for e in load_corpus('legacy.json'):
+        check_legacy(run, model, bytes.fromhex(e['data']), e['expect'], 'corpus')
+    urls = load_corpus('urls.json') or {'valid': URL_VALID_FIXED, 'invalid': URL_INVALID_FIXED}
+    for s in urls['valid']:
+        check_url(run, model, s, 'corpus-valid')
+        if impl_url(s)[0] is None:
+            run.violation({'op': 'url', 's': s, 'kind': 'corpus-valid'}, 'a URL of the valid list is refused', signature={'op': 'url', 's': s})
+    for s in urls['invalid']:
+        check_url(run, model, s, 'corpus-invalid')
+        if impl_url(s)[0] is not None:
+            run.violation({'op': 'url', 's': s, 'kind': 'corpus-invalid'}, 'a URL of the invalid list is accepted', signature={'op': 'url', 's': s})
+    # -- claims, supports, purchases ------------------------------------------------------------------
+    raws = []
+    for _ in range(q(2500, 60000)):
+        spec = gen_claim_spec(rng)
+        run_claim_spec(run, model, spec, 'generated')
+        if len(raws) < 400 and rng.random() < 0.3:
+            try:
+                raws.append(build_claim(spec).to_bytes())
+            except Exception:           # noqa
+                pass
+    for _ in range(q(300, 6000)):
+        check_support(run, model, gen_support_spec(rng), 'generated')
+    check_purchase(run, model, None, 'boundary')
+    for _ in range(q(200, 4000)):
+        check_purchase(run, model, gen_claim_id(rng), 'generated')
+    # -- legacy ---------------------------------------------------------------------------------------
+    for _ in range(q(300, 6000)):
+        text, e = gen_legacy_json(rng)
+        check_legacy(run, model, text.encode('utf-8'), e, 'generated-json')
+        data, e = gen_legacy_v1(rng)
+        check_legacy(run, model, data, e, 'generated-v1')
+    # -- numbers --------------------------------------------------------------------------------------
+    edges = {0, 1, 2 ** 64 - 1, 2 ** 63, 2 ** 63 - 1, 2 ** 63 + 1, 2 ** 32, 2 ** 31}
+    for k in range(1, 10):
+        edges |= {2 ** (7 * k) - 1, 2 ** (7 * k), 2 ** (7 * k) + 1}
+    for n in sorted(edges):
+        check_varint(run, model, n, 'boundary')
+    for _ in range(q(500, 20000)):
+        check_varint(run, model, rng.randrange(2 ** rng.randrange(1, 65)), 'generated')
+    # -- damaged bytes -----------------------------------------------------------------------------------
+    sup = Support()
+    sup.comment = 'hi'
+    sup.signature, sup.signing_channel_hash = b'\x05' * 64, b'\x07' * 20
+    sraw = sup.to_bytes()
+    check_signable_bytes(run, model, b'', 'boundary')
+    check_claim_dispatch(run, model, b'', 'boundary')
+    for b0 in range(256):
+        check_signable_bytes(run, model, bytes([b0]) + sraw[1:], 'first-byte')
+        check_signable_bytes(run, model, bytes([b0]) + sraw[85:], 'first-byte')
+        check_claim_dispatch(run, model, bytes([b0]) + sraw[85:], 'first-byte')
+    for n in range(0, len(sraw) + 1):
+        check_signable_bytes(run, model, sraw[:n], 'truncated')
+    for _ in range(q(600, 20000)):
+        base = rng.choice(raws) if raws else sraw
+        d = damage(rng, base)
+        check_claim_dispatch(run, model, d, 'damaged')
+        check_signable_bytes(run, model, damage(rng, sraw), 'damaged')
+        payload = base[85:] if base[:1] == b'\x01' else base[1:]
+        check_wire(run, model, payload, M_CLAIM, claim_pb2.Claim, 'intact')
+        check_wire(run, model, damage(rng, payload), M_CLAIM, claim_pb2.Claim, 'damaged')
+    # -- URLs --------------------------------------------------------------------------------------------
+    for _ in range(q(5000, 150000)):
+        u, s = gen_url(rng)
+        check_url(run, model, s, 'grammar', parts=u)
+        check_url(run, model, corrupt(rng, s), 'one-edit')
+    for c in BAD_POOL + [chr(i) for i in range(0, 0x21)]:
+        for base in ('lbry://name', '@chan:ab/stream$2'):
+            for pos in (0, 7 if base.startswith('lbry') else 1, len(base) // 2, len(base)):
+                check_url(run, model, base[:pos] + c + base[pos:], 'forbidden-inserted')
+    for s in small_scope_urls(q(3, 5)):
+        check_url(run, model, s, 'small-scope')
+    run.exhaustive = True
+    run.notes.append({'exhaustive': f'all strings of length <= {q(3, 5)} over [a 1 0 g @ : # $ / \\n] (URL grammar); every first '
+                                    'byte 0..255 and every truncation length of a signed envelope'})
+    run.partial = ['the typed accessors of attrs.py (Fee decimal arithmetic, Language/Location parsing, hex <-> bytes views) are '
+                   'covered by the correspondence and the monitor only, not by a Coq model',
+                   'legacy JSON / v1 decoding (compat.py) is covered by correspondence only; the model only decides which '
+                   'decoder Claim.from_bytes chooses',
+                   'on damaged bytes the wire model is compared with the real parser for accept/refuse and, when the bytes are '
+                   'canonical, for the parsed tree; protobuf groups (wire types 3/4) are outside the model']
+    run.supporting = {'model_calls': model.calls}
+    model.close()
+
+
+def replay(run, case):
+    model = vlib.Model('C16')
+    op = case.get('op')
+    if op == 'claim':
+        run_claim_spec(run, model, case['spec'], 'replay')
+    elif op == 'support':
+        check_support(run, model, case['spec'], 'replay')
+    elif op == 'purchase':
+        check_purchase(run, model, case['claim_id'], 'replay')
+    elif op == 'legacy':
+        check_legacy(run, model, bytes.fromhex(case['data']), case['expect'], 'replay')
+    elif op == 'url':
+        check_url(run, model, case['s'], 'replay', parts=case.get('parts'))
+    elif op == 'support-bytes':
+        check_signable_bytes(run, model, bytes.fromhex(case['data']), 'replay')
+    elif op == 'claim-bytes':
+        check_claim_dispatch(run, model, bytes.fromhex(case['data']), 'replay')
+    elif op == 'wire':
+        check_wire(run, model, bytes.fromhex(case['data']), case['m'], claim_pb2.Claim, 'replay')
+    elif op == 'varint':
+        check_varint(run, model, int(case['n']), 'replay')
+    model.close()
